@@ -11,6 +11,7 @@ package gsim
 
 import (
 	"fmt"
+	"sync"
 )
 
 // Task is one simulated client.
@@ -26,7 +27,9 @@ type Task struct {
 
 type BudgetExceeded struct{ Steps int64 }
 
-func (b BudgetExceeded) Error() string { return fmt.Sprintf("step budget exceeded after %d yields", b.Steps) }
+func (b BudgetExceeded) Error() string {
+	return fmt.Sprintf("step budget exceeded after %d yields", b.Steps)
+}
 
 var (
 	cur   *Task
@@ -102,14 +105,14 @@ type Schedule struct {
 }
 
 type Sched struct {
-	plan   Schedule
-	tasks  []*Task
-	back   chan struct{}
-	rng    uint64
-	Trace  []int // task id per step
-	Sites  []int // site at which the task chosen at that step was parked before running (-1: start)
-	step   int
-	points map[int]int
+	plan     Schedule
+	tasks    []*Task
+	back     chan struct{}
+	rng      uint64
+	Trace    []int // task id per step
+	SwitchAt []int // yield site at which the previously running task was parked when another task was chosen
+	step     int
+	points   map[int]int
 }
 
 func mix(x uint64) uint64 {
@@ -138,6 +141,8 @@ func Run(plan Schedule, datas []interface{}, budget int64, bodies []func()) (s *
 	}
 	panics = make([]interface{}, n)
 	done := make(chan struct{})
+	var wg sync.WaitGroup
+	wg.Add(n)
 	for i := 0; i < n; i++ {
 		t := &Task{ID: i, Data: datas[i], Budget: budget, wake: make(chan struct{}), InSite: -1}
 		s.tasks = append(s.tasks, t)
@@ -158,6 +163,7 @@ func Run(plan Schedule, datas []interface{}, budget int64, bodies []func()) (s *
 				}()
 				body()
 			}()
+			wg.Done() // visible edge: what the task wrote is ordered before Run returns
 			finish(s, t)
 		}()
 	}
@@ -165,7 +171,8 @@ func Run(plan Schedule, datas []interface{}, budget int64, bodies []func()) (s *
 		s.loop()
 		close(done)
 	}()
-	<-done // a real happens-before edge: results written by tasks are visible to the caller
+	<-done
+	wg.Wait()
 	setSched(nil)
 	setCur(main0)
 	return s, panics
@@ -201,7 +208,9 @@ func (s *Sched) loop() {
 		}
 		t := s.pick(live, last)
 		s.Trace = append(s.Trace, t.ID)
-		s.Sites = append(s.Sites, t.InSite)
+		if last != nil && last != t && !last.done {
+			s.SwitchAt = append(s.SwitchAt, last.InSite)
+		}
 		s.step++
 		setCur(t)
 		raceDisable()
